@@ -1,5 +1,5 @@
 pub(crate) mod header;
-mod reference_sequences;
+pub(crate) mod reference_sequences;
 
 use std::io::{self, Write};
 
